@@ -60,6 +60,7 @@ ASSUMPTIONS = {
 
 KEYS_INT = ["a", "b", "k", "g"]
 KEYS_STR = ["s"]
+KEYS_TUP = ["t"]
 KEYS_ALL = KEYS_INT + KEYS_STR + ["n"]
 FRESH = ["r1", "r2", "r3"]
 WARNING = "Warning: A successor has modified the shared dicts"
@@ -107,6 +108,8 @@ def make_pred(spec, counter):
             return k in x
         if p == "const":
             return v
+        if p == "first_n":
+            return counter.n <= v        # stateful: true for the first v items it is asked about
         raise AssertionError(p)
     return pred
 
@@ -198,7 +201,8 @@ def defined_keys(items, keys):
 def sortable(items, key):
     vals = [x[key] for x in items if x[key] is not None]
     return all(isinstance(v, int) and not isinstance(v, bool) for v in vals) or \
-        all(isinstance(v, str) for v in vals)
+        all(isinstance(v, str) for v in vals) or \
+        all(isinstance(v, tuple) and all(isinstance(e, int) for e in v) for v in vals)
 
 
 def hashable_vals(items, keys):
@@ -1654,6 +1658,7 @@ class Gen:
         self.ragged = r.choice([0, 0.15, 0.4])
         self.none_rate = r.choice([0, 0.15, 0.35])
         self.nested = r.random() < 0.3
+        self.tuples = False     # tuple-valued keys cannot be carried by JSON traces (see DESIGN 11.10)
         groups = {
             "subset": ["filter", "filter_out", "head", "tail", "slice", "drop_na", "sample", "unique"],
             "order": ["sort", "reverse"],
@@ -1707,12 +1712,14 @@ class Gen:
             return r.choice(["", "x", "x", "y", "zz", "Zz", "long " * 9, "日本語" * 14])
         if key == "n":
             return r.choice([[1, 2], {"z": 1}, [], [{"q": None}]])
+        if key == "t":
+            return r.choice([(1, 2), (1, 3), (0, 9), (1, 2)])
         return r.choice([0, 1, "x"])
 
     def item(self):
         r = self.rng
         keys = ["k", "g", "a", "s"] + (["b"] if r.random() < 0.4 else []) + \
-            (["n"] if self.nested and r.random() < 0.5 else [])
+            (["n"] if self.nested and r.random() < 0.5 else []) + (["t"] if self.tuples else [])
         d = {}
         for k in keys:
             if k != "k" and r.random() < self.ragged:
@@ -1732,7 +1739,9 @@ class Gen:
     def pred(self):
         r = self.rng
         k = r.choice(KEYS_INT + KEYS_STR)
-        kind = r.choice(["eq", "eq", "none", "gt", "has", "const"])
+        kind = r.choice(["eq", "eq", "none", "gt", "has", "const", "first_n"])
+        if kind == "first_n":
+            return {"p": "first_n", "v": r.choice([0, 1, 2, 3])}
         if kind == "eq":
             return {"p": "eq", "k": k, "v": self.value(k)}
         if kind == "gt":
@@ -1778,7 +1787,7 @@ class Gen:
 
     def common_keys(self, h, among=None):
         items = self.w.model[h].items
-        keys = among or (KEYS_INT + KEYS_STR)
+        keys = among or (KEYS_INT + KEYS_STR + (KEYS_TUP if self.tuples else []))
         return [k for k in keys if all(k in x for x in items)]
 
     def join_by(self, a, b):
